@@ -17,6 +17,7 @@ import xarray as xr
 
 NODATA = -3000
 BIG_FRACTION = 0.0  # set by the thorough tier
+ALT_NODATA = {"uint8": 255, "int8": -128, "uint16": 65535, "int64": -3000, "uint32": 4294967295}
 
 # ---------------------------------------------------------------------------
 # array <-> json
@@ -134,6 +135,8 @@ def _base_values(nprng, shape, dtype, kind):
         if np.dtype(dtype).kind in "iu":
             return np.round(v).astype(dtype)
         return v.astype(dtype)
+    if np.dtype(dtype).itemsize == 1 and kind != "binary":
+        return nprng.integers(0, 100, size=shape).astype(dtype)  # 8-bit data: small values
     if kind == "smallint":
         return nprng.integers(0, 900, size=shape).astype(dtype)
     # ndvi-like signal
@@ -422,8 +425,26 @@ def gen_scenario(rng, ops=None, force=None):
     else:
         raise ValueError(op)
 
+    # less common storage types for the operations whose kernels accept any real input
+    if "dtype" not in force and op in ("whits", "whitswcv", "autocorr", "croo", "iteragg", "anom", "zonal_mean", "rolling_sum", "mktrend") and rng.random() < 0.15:
+        if not (op == "whits" and False):
+            alt = rng.choice(["uint8", "int8", "uint16", "int64", "uint32"])
+            if op == "autocorr":
+                params["float"] = False
+            if op in ("iteragg",) and params.get("nan_cells"):
+                params["nan_cells"] = False
+            if op == "zonal_mean":
+                params["nan_cells"] = False
+            dtype = alt
+            nodata = ALT_NODATA[alt]
+            if op == "croo":
+                nodata = 2
     if "dtype" in force:
         dtype = force["dtype"]
+        if dtype in ALT_NODATA and op not in ("croo", "lroo"):
+            nodata = ALT_NODATA[dtype]
+            if op == "autocorr":
+                params["float"] = False
         if not dtype.startswith("float") and params.get("nan_cells"):
             params["nan_cells"] = False
     if op == "iteragg":
